@@ -318,10 +318,11 @@ def run(rep, tier):
     good = [e for e in events if not (e["ev"] == "Build" and not e["ok"])]
     trg = os.path.join(wd, "trace_ok.ndjson")
     lib.write_ndjson(trg, good)
-    ok, vr = lib.validate_trace("pipeline", "Trace_Pipeline", "trace.cfg", trg, heap="4g")
-    rep.add_tlc("Trace_Pipeline", vr)
+    ok, vrs = lib.validate_trace_by_run("pipeline", "Trace_Pipeline", "trace.cfg", good, wd, "ok")
+    for i, vr in enumerate(vrs):
+        rep.add_tlc("Trace_Pipeline/%d" % i, vr)
     if not ok:
-        raise lib.ToolError("build trace (failures removed) rejected: %s" % vr.printed)
+        raise lib.ToolError("build trace (failures removed) rejected: %s" % [v.printed for v in vrs if v.rc != 0][:1])
     bad = os.path.join(wd, "trace_bad.ndjson")
     lib.write_ndjson(bad, good[:3] + [{"ev": "Build", "run": good[0]["run"], "file": "x.h", "tool": "gcc", "ok": False}])
     ok2, _ = lib.validate_trace("pipeline", "Trace_Pipeline", "trace.cfg", bad)
